@@ -13,7 +13,7 @@ from sa import affine, bits, summ, sym
 from sa.facts import Program, walk
 from sa.sym import I, ZERO
 
-NOINLINE = summ.InlineLib(only=lambda f: False)
+NOINLINE = summ.LOCAL_HELPERS
 FNS = ("modSwitchFromTorus32", "approxPhase", "modSwitchToTorus32")
 
 
